@@ -7,6 +7,7 @@ import "github.com/scigolib/hdf5/internal/zzverif/ev"
 var All = []*ev.Property{
 	C01,
 	C02,
+	C03,
 	C08,
 	C11,
 	C14,
